@@ -160,7 +160,7 @@ pub fn run(ctx: &mut Ctx) {
     ctx.floor("ch.versions", 65536);
 
     // ------------------------------------------------ generated serializable messages
-    let n = ctx.tier.pick(30_000, 300_000);
+    let n = ctx.tier.pick(120000, 1200000);
     ctx.family("messages", n, |ctx, case: &mut Case| {
         let r = &mut case.rng;
         let sz = match r.below(30) {
@@ -223,7 +223,7 @@ pub fn run(ctx: &mut Ctx) {
     ctx.mark_exhaustive("ClientHello version: all 65536 values serialized and parsed back");
 
     // ------------------------------------------------ the three ClientKeyExchange forms
-    let n = ctx.tier.pick(2_000, 20_000);
+    let n = ctx.tier.pick(8000, 80000);
     ctx.family("cke-forms", n, |ctx, case: &mut Case| {
         let r = &mut case.rng;
         let data = match case.idx % 3 {
@@ -258,7 +258,7 @@ pub fn run(ctx: &mut Ctx) {
     });
 
     // ------------------------------------------------ records of 1..n messages
-    let n = ctx.tier.pick(5_000, 50_000);
+    let n = ctx.tier.pick(20000, 200000);
     ctx.family("records", n, |ctx, case: &mut Case| {
         let r = &mut case.rng;
         let hs = r.chance(4, 5);
@@ -345,7 +345,7 @@ pub fn run(ctx: &mut Ctx) {
     });
 
     // ------------------------------------------------ values obtained by parsing generated records
-    let n = ctx.tier.pick(4_000, 40_000);
+    let n = ctx.tier.pick(16000, 160000);
     ctx.family("parsed-values", n, |ctx, case: &mut Case| {
         let r = &mut case.rng;
         let m = serializable(r, gen::SMALL);
@@ -381,7 +381,7 @@ pub fn run(ctx: &mut Ctx) {
     });
 
     // ------------------------------------------------ extensions through gen_tls_extension(s)
-    let n = ctx.tier.pick(4_000, 40_000);
+    let n = ctx.tier.pick(16000, 160000);
     ctx.family("extensions", n, |ctx, case: &mut Case| {
         let r = &mut case.rng;
         let mk = |r: &mut Rng| -> AExt {
